@@ -45,11 +45,14 @@ def run(ctx, name, cases, parts=('errors', 'defs', 'refs', 'ast', 'imports'), sh
             if o['outcome'] == 'harness-error':
                 defs.append('Definition c%d : list string := ["harness-error"].' % i)
                 continue
+            if o['outcome'] == 'timeout' or c.get('_skip_model'):
+                defs.append('Definition c%d : list string := [].' % i)   # not evaluated on the model (see the property module)
+                continue
             gen = ((c.get('options') or {}).get('generate') or {})
             deriving = gen.get('default_deriving', [])
             incdirs = gen.get('include_dirs', [])   # configured relative paths stay relative in the real code
             world = front_val.c_world(o['cst'], c.get('dirs', []))
-            exp = front_val.voutcome(o, parts)
+            exp = front_val.voutcome(o, c.get('_parts', parts), c.get('_loose_app', False))
             defs.append('Definition c%d : list string := bad_parts (voutcome (run_front (%s) %s %s %s)) (%s).' %
                         (i, world, cstrs(deriving), cstrs(incdirs), cstr(c['root']), exp))
         body = PRE + '\n'.join(defs) + '\nDefinition all := %s.\n' % clist(['(%s, c%d)' % (cnat(i - s), i) for i in range(s, min(len(cases), s + shard))]) + \
